@@ -287,8 +287,8 @@ Violation ComputeViolation(
       return {viol, x[resvar]};
     case Context::CTX_NEG:
       return {-viol, x[resvar]};
-    default:
-      return {INFINITY, 0.0};
+    default:          // no context (result not used): equality
+      return {std::fabs(viol), x[resvar]};
     }
   }
   return                              // recomputed var minus solver's
@@ -407,8 +407,10 @@ public:
       if (has_arg >= ccon_valid)
         return {0.0, 0.0};
       return {-viol.viol_, viol.valX_};
-    default:
-      return {INFINITY, 0.0};
+    default:          // no context (result not used): equivalence
+      if (has_arg == ccon_valid)
+        return {0.0, 0.0};
+      return {std::fabs(viol.viol_), viol.valX_};
     }
   }
 };
